@@ -286,6 +286,7 @@ namespace cds { namespace gc { namespace hp { namespace details {
     CDS_EXPORT_API void basic_smr::inplace_scan(thread_data* pThreadRec )
     {
         thread_record* pRec = static_cast<thread_record*>( pThreadRec );
+        CDS_VERIF_EVENT( "hp.inplace_scan", pRec );
 
         //CDS_HAZARDPTR_STATISTIC( ++m_Stat.m_ScanCallCount )
 
@@ -375,6 +376,7 @@ namespace cds { namespace gc { namespace hp { namespace details {
     CDS_EXPORT_API void basic_smr::classic_scan(thread_data* pThreadRec )
     {
         thread_record* pRec = static_cast<thread_record*>( pThreadRec );
+        CDS_VERIF_EVENT( "hp.classic_scan", pRec );
 
         CDS_HPSTAT( ++pThreadRec->scan_count_ );
 
@@ -428,6 +430,7 @@ namespace cds { namespace gc { namespace hp { namespace details {
 
     CDS_EXPORT_API void basic_smr::help_scan(thread_data* pThis )
     {
+        CDS_VERIF_EVENT( "hp.help_scan", pThis );
         assert( static_cast<thread_record*>( pThis )->owner_rec_.load( atomics::memory_order_relaxed ) == static_cast<thread_record*>( pThis ));
 
         CDS_HPSTAT( ++pThis->help_scan_count_ );
